@@ -78,33 +78,57 @@ Theorem C06_faulty_sync_partial : forall fixed sp P F, NoDup (pod_ids P) ->
 Proof. exact faulty_sync_partial. Qed.
 Print Assumptions C06_faulty_sync_partial.
 
-(* createJobPod: the fields a created pod derives are those of ITS OWN (task, index), for every
-   job version / retry count / task / template; when syncJob builds all missing replicas of a
-   task in one pass, the k-th pod is the pod of the k-th index and distinct indices give distinct
-   index markers; the executable law accepts exactly that *)
-Theorem C06_create_job_pod_own_fields : forall ver retry t x i,
-  let p := create_job_pod ver retry t x i in
-  pf_task p = t_name t /\ pf_lbl_task p = t_name t /\ pf_idx p = i /\ pf_lbl_idx p = i /\
-  pf_version p = ver /\ pf_retry p = retry.
-Proof. exact create_job_pod_own_fields. Qed.
-Print Assumptions C06_create_job_pod_own_fields.
+(* ---- createJobPod against an INDEPENDENT specification.  The model works on the pod OBJECT: name,
+   namespace, owner reference and the label / annotation MAPS (C06/Model.v make_pod: a sequence of map
+   writes, as the Go code does).  [is_pod_of j t i ta tl p] (C06/Lemmas.v) does not mention make_pod: it
+   says what can be READ from p: name = (job, t, i), namespace, controller owner reference = (job name,
+   uid), under every derived annotation / label key the value for (job, t, i) (task-index, task-spec,
+   group name, job name, queue, job version, template name, retry count, namespace label), the
+   scheduler's job id = namespace / PodGroup name, and every other key of the template's own maps ta / tl
+   unchanged. ---- *)
+Theorem C06_make_pod_is_pod_of : forall j t i ta tl, is_pod_of j t i ta tl (make_pod j t i ta tl).
+Proof. exact make_pod_is_pod_of. Qed.
+Print Assumptions C06_make_pod_is_pod_of.
 
-Theorem C06_create_task_pods_pointwise : forall ver retry t x idxs k i,
-  nth_error idxs k = Some i ->
-  nth_error (create_task_pods ver retry t x idxs) k = Some (create_job_pod ver retry t x i).
-Proof. exact create_task_pods_pointwise. Qed.
-Print Assumptions C06_create_task_pods_pointwise.
+(* all missing replicas of a task built in one pass of syncJob (every pod from its own copy of the
+   template): the k-th pod is the pod of the k-th index *)
+Theorem C06_build_pods_own : forall j t ta tl idxs,
+  Forall2 (fun i p => is_pod_of j t i ta tl p) idxs (build_pods j t ta tl idxs).
+Proof. exact build_pods_own. Qed.
+Print Assumptions C06_build_pods_own.
 
-Theorem C06_create_task_pods_distinct : forall ver retry t x idxs,
-  NoDup idxs -> NoDup (map pf_idx (create_task_pods ver retry t x idxs)) /\
-                map pf_lbl_idx (create_task_pods ver retry t x idxs) = idxs.
-Proof. exact create_task_pods_distinct. Qed.
-Print Assumptions C06_create_task_pods_distinct.
+(* REFUTED for a createJobPod that writes into the template's own maps (Go maps are references; seeded
+   mutant C06-r3-1): two different indices built in one pass, and the first pod is not the pod of its index *)
+Theorem C06_build_pods_shared_refuted : forall j t ta tl i i',
+  i <> i' -> ~ Forall2 (fun i p => is_pod_of j t i ta tl p) [i; i'] (build_pods_shared j t ta tl [i; i']).
+Proof. exact build_pods_shared_refuted. Qed.
+Print Assumptions C06_build_pods_shared_refuted.
 
-Theorem C06_law_created_pods_accepts_model : forall ver retry t x idxs,
-  law_created_pods ver retry t x idxs (create_task_pods ver retry t x idxs) = true.
-Proof. exact law_created_pods_accepts_model. Qed.
-Print Assumptions C06_law_created_pods_accepts_model.
+(* what correspondence selector 6 compares with the Go pods is READ from these objects (read_fields:
+   kget under the marker keys), and the objects it builds are pods of their own (task, index) *)
+Theorem C06_task_pod_objs_own : forall ver retry tk x idxs,
+  Forall2 (fun i p => is_pod_of (mkJob 1 1 1 1 ver retry) (t_name tk) i (tmpl (x_mem x)) (tmpl (x_cpu x)) p)
+          idxs (task_pod_objs ver retry tk x idxs).
+Proof. exact task_pod_objs_own. Qed.
+Print Assumptions C06_task_pod_objs_own.
+
+(* the executable laws on created pods MEAN the clause: law 211 / 204 = true implies every conjunct *)
+Theorem C06_law_created_pods_sound : forall ver retry t x idxs got,
+  law_created_pods ver retry t x idxs got = true ->
+  Forall2 (fun i p => pf_task p = t_name t /\ pf_lbl_task p = t_name t /\ pf_idx p = i /\ pf_lbl_idx p = i /\
+                      pf_version p = ver /\ pf_retry p = retry /\
+                      pf_user_lbl p = Z.max 0 (x_cpu x) /\ pf_user_ann p = Z.max 0 (x_mem x)) idxs got.
+Proof. exact law_created_pods_sound. Qed.
+Print Assumptions C06_law_created_pods_sound.
+
+Theorem C06_law_markers_sound : forall t i ver retry cpu mem m,
+  law_markers t i ver retry cpu mem m = true ->
+  m_task m = Zpos t /\ m_idx m = i /\ m_lbl_task m = Zpos t /\ m_lbl_idx m = i /\
+  m_version m = ver /\ m_retry m = retry /\
+  m_owner m = true /\ m_group m = true /\ m_jobname m = true /\ m_queue m = true /\ m_jobid m = true /\
+  m_user_lbl m = Z.max 0 cpu /\ m_user_ann m = Z.max 0 mem /\ m_shape m = true.
+Proof. exact law_markers_sound. Qed.
+Print Assumptions C06_law_markers_sound.
 
 (* a delayed action that expires and leads to syncJob creates no pod while the PodGroup is not admitted *)
 Theorem C06_fire_creates_none_while_pg_pending : forall w w' e wr t c rest,
@@ -166,6 +190,17 @@ Theorem C06_pg_refused_write_reported : forall lister api sp xs jp api' err,
 Proof. exact pg_refused_write_reported. Qed.
 Print Assumptions C06_pg_refused_write_reported.
 
+(* a STALE lister copy: whatever the lister shows and whatever the API server holds, a call that
+   writes and returns OK leaves a mirroring PodGroup (all mirrored fields are recomputed from the spec).
+   Not covered: a stale copy that already mirrors the spec while the API server's object does not: then no
+   write is made and OK is returned (the next delivery of the PodGroup re-enqueues nothing; declared) *)
+Theorem C06_pg_written_mirrors : forall g api sp xs jp api',
+  NoDup (map t_name (s_tasks sp)) -> pg_update g sp xs jp <> g ->
+  create_or_update_pg (Some g) api sp xs jp false = (api', false) ->
+  exists g', api' = Some g' /\ pg_mirrors g' sp xs jp.
+Proof. exact pg_written_mirrors. Qed.
+Print Assumptions C06_pg_written_mirrors.
+
 (* after createOrUpdatePodGroup (create, or update after any scale up/down):
    MinMember, every task's MinTaskMember, PriorityClassName, MinResources mirror the spec *)
 Theorem C06_podgroup_mirrors_spec : forall sp xs jp,
@@ -212,6 +247,57 @@ Theorem C06_fill_up_exact : forall l leftcnt,
   Forall ptask_ok l -> 0 < leftcnt <= sum_spare l -> r_pods (fill_up leftcnt l) = leftcnt.
 Proof. exact fill_up_exact. Qed.
 Print Assumptions C06_fill_up_exact.
+
+(* ---- minResources: WHICH requests are summed.  Independent specification: [greedy caps n] hands n units
+   to a list of capacities in order, each taking as much as it can ([C06_greedy_spec]: 0 <= k_t <= cap_t,
+   total = min n (sum caps)); [rsum ks l] = sum over the tasks of k_t x (the request of one pod of t).
+   With the tasks in visiting order l: if minAvailable is below the sum of the task minimums the hand-out
+   goes to the tasks' REPLICAS; otherwise every task first receives its OWN MINIMUM (in order, while
+   something is left) and the remainder goes, again in order, to the replicas beyond the minimum.
+   cpu and memory components included. ---- *)
+Theorem C06_greedy_spec : forall caps n,
+  Forall (fun c => 0 <= c) caps -> 0 <= n ->
+  Forall2 (fun c k => 0 <= k <= c) caps (greedy caps n) /\
+  zsum (greedy caps n) = Z.min n (zsum caps).
+Proof. exact greedy_spec. Qed.
+Print Assumptions C06_greedy_spec.
+
+Theorem C06_calc_min_resources_amount : forall l jobmin tm,
+  Forall ptask_ok l -> 0 <= jobmin ->
+  calc_min_resources_sorted jobmin l tm =
+  if jobmin <? tm then rsum (greedy (map pt_replicas l) jobmin) l
+  else let own := greedy (map own_min l) jobmin in
+       radd (rsum own l) (rsum (greedy (map spare l) (jobmin - zsum own)) l).
+Proof. exact calc_min_resources_amount. Qed.
+Print Assumptions C06_calc_min_resources_amount.
+
+(* law 206 MEANS the clause: a value it accepts is the value for SOME visiting order that is a permutation
+   of the job's tasks in descending priority (ties in any order), i.e. the amount above over that order *)
+Theorem C06_law_minres_amount : forall sp xs got,
+  Forall ptask_ok (ptasks sp xs) -> 0 <= s_min sp ->
+  law_minres sp xs got = true ->
+  exists o, Permutation o (ptasks sp xs) /\ desc_prio o = true /\
+    got = if s_min sp <? total_min (ptasks sp xs) then rsum (greedy (map pt_replicas o) (s_min sp)) o
+          else let own := greedy (map own_min o) (s_min sp) in
+               radd (rsum own o) (rsum (greedy (map spare o) (s_min sp - zsum own)) o).
+Proof. exact law_minres_amount. Qed.
+Print Assumptions C06_law_minres_amount.
+
+(* law 205 MEANS the mirror clause *)
+Theorem C06_law_pg_sound : forall sp xs jp q g,
+  law_pg sp xs jp q g = true ->
+  g_minmember g = s_min sp /\ g_prio g = jp /\ q = true /\
+  (forall t, In t (s_tasks sp) -> tm_get (t_name t) (g_taskmin g) = Some (min_task_member t)) /\
+  law_minres sp xs (g_res g) = true.
+Proof. exact law_pg_sound. Qed.
+Print Assumptions C06_law_pg_sound.
+
+Example C06_nonvacuous_minres_amount :
+  let l := [mkPT (mkTask 1 3 (Some 1) [] None) 100 64 10; mkPT (mkTask 2 2 None [] None) 250 0 20] in
+  Forall ptask_ok l /\ greedy (map own_min l) 4 = [1; 0] /\ greedy (map spare l) (4 - 1) = [2; 1] /\
+  calc_min_resources_sorted 4 l (total_min l) = radd (rsum [1; 0] l) (rsum [2; 1] l) /\
+  radd (rsum [1; 0] l) (rsum [2; 1] l) = mkR 4 (3 * 100 + 1 * 250) (3 * 64).
+Proof. exact minres_amount_example. Qed.
 
 Example C06_nonvacuous :
   let sp := mkSpec [mkTask 1 3 (Some 1) [] None; mkTask 2 2 None [] None] 4 None 3 [] in
